@@ -606,6 +606,13 @@ def r7(R, repo):
     R.unsure(key, m2, 'Module.init: `_, v_out = self.init_with_output(...)` / `return v_out` not recognised')
 
 
+@rule('C01.R9', 'K7', 3, 'lifted transforms never widen mutability and never share variable dicts with the outer scope')
+def r9(R, repo):
+  from . import c05 as _c05
+  _c05.check_inner_mutability(R, repo)
+  _c05.check_inner_variables_cloned(R, repo)
+
+
 @rule('C01.R8', 'K8', 16, 'the mutability filter is exact membership (a name never matches by substring or inverted DenyList)')
 def r8(R, repo):
   _c14.check_in_filter(R, repo)
